@@ -1487,6 +1487,37 @@ pub fn gen_any(prop: &str, seed: u64) -> Value {
                     cfg.extra.insert("hostile_paths".into(), "1".into());
                 }
             }
+            // restart: in a quarter of the runs on stacks with adapters, the adapters are
+            // constructed anew over the same layers once or twice (only durable state survives)
+            if matches!(prop, "C01" | "C03" | "C04" | "C05" | "C08" | "C09" | "C10" | "C12") && (cfg.specs[0].has_ovl() || matches!(cfg.specs[0], Spec::Alt { .. })) {
+                let mut r = Rng::new(crate::rng::mix(seed, 0x2E0F));
+                if r.pct(25) && !cfg.ops.is_empty() {
+                    for _ in 0..(1 + r.below(2)) {
+                        let at = r.below(cfg.ops.len() + 1);
+                        // only where no handle is open
+                        let mut open: std::collections::BTreeSet<u8> = Default::default();
+                        for o in cfg.ops.iter().take(at) {
+                            match o {
+                                Op::OpenRead(_, sl) | Op::OpenWrite { slot: sl, .. } => {
+                                    open.insert(*sl);
+                                }
+                                Op::HDrop(sl) => {
+                                    open.remove(sl);
+                                }
+                                _ => {}
+                            }
+                        }
+                        if open.is_empty() {
+                            cfg.ops.insert(at, Op::Reopen);
+                            if let Some(f) = cfg.fault.as_mut() {
+                                if at <= f.op_index {
+                                    f.op_index += 1;
+                                }
+                            }
+                        }
+                    }
+                }
+            }
             serde_json::to_value(cfg).unwrap()
         }
         "conc" => serde_json::to_value(gen_conc(prop, seed)).unwrap(),
